@@ -852,7 +852,7 @@ func panicSite(p string) string {
 		}
 		if strings.Contains(l, "github.com/weedbox/pokertable.") || strings.Contains(l, "github.com/weedbox/pokertable/") {
 			f := strings.TrimSpace(l)
-			if i := strings.Index(f, "("); i > 0 {
+			if i := strings.LastIndex(f, "("); i > 0 {
 				f = f[:i]
 			}
 			f = strings.TrimPrefix(f, "github.com/weedbox/")
